@@ -1624,6 +1624,28 @@ def _h_dict(it, args, kwargs, bound, node, qual):
     return args[0]
 
 
+def _h_diff(it, args, kwargs, bound, node, qual):
+    """np.diff(x[, prepend=c]) of an opaque 1-D array: indexed differences (explicit positions)."""
+    if len(args) != 1 or set(kwargs) - {"prepend"}:
+        return None
+    x = args[0]
+    if isinstance(x, Vec):
+        xa = lambda pos: x.at(pos)
+        n = x.length
+    elif isinstance(x, Num) and it.single_atom(x.nf) is not None:
+        xa = lambda pos: nf.fn("[]", x.nf, pos)
+        n = nf.fn("len", x.nf)
+    else:
+        return None
+    j = nf.sym(J)
+    if "prepend" in kwargs:
+        gen = nf.sub(xa(j), xa(nf.sub(j, nf.ONE)))
+        v = Vec(gen, n)
+        v.over[nf.key(nf.const(0))] = (nf.const(0), nf.sub(xa(nf.const(0)), it.to_nf(kwargs["prepend"])))
+        return v
+    return Vec(nf.sub(xa(nf.add(j, nf.ONE)), xa(j)), nf.sub(n, nf.ONE))
+
+
 def _h_dataframe(it, args, kwargs, bound, node, qual):
     d = bound.get("data")
     if isinstance(d, DictV):
@@ -1634,6 +1656,7 @@ def _h_dataframe(it, args, kwargs, bound, node, qual):
 
 _EXT_HANDLERS = {
     "pandas.DataFrame": _h_dataframe,
+    "numpy.diff": _h_diff,
     "math.exp": _h_unary(nf.exp),
     "numpy.exp": _h_unary(nf.exp),
     "math.log": _h_unary(nf.log),
